@@ -128,12 +128,12 @@ package object
 //@   ensures @C02 @C16 reset.array: ao.offset == 0
 //@   panics never
 //@ func (ao *Array) Next() (v Object, k Object, ok bool)
-//@   requires 0 <= ao.offset
 //@   modifies ao.offset
 //@   ensures @C02 @C16 next.array.more: old(ao.offset) < len(ao.Elements) ==> ok && v === ao.Elements[old(ao.offset)]
 //@            && isInt(k) && fresh(k) && ival(k) == old(ao.offset) && ao.offset == old(ao.offset) + 1
 //@   ensures @C02 @C16 next.array.done: old(ao.offset) >= len(ao.Elements) ==> !ok && v == nil && ao.offset == old(ao.offset)
-//@   panics never
+//@   ensures next.array.good: validObj(k) && (ok ==> validObj(v))
+//@   panics when ao.offset < 0
 
 //@ func (h *Hash) Type() (result Type)
 //@   modifies nothing
